@@ -166,6 +166,33 @@ CHECKS["C15"] = {
     ],
 }
 
+CHECKS["C19"] = {
+    "pkg": "./checks/c19",
+    "level": "exploration",
+    "rule": "A node holding a deputy key (3..5 deputies, prefix of 1..3 blocks) gets 2..4 mutating requests plus 0..2 read queries released together from a barrier: InsertBlock of prepared blocks around the head "
+            "(A: next block, A2: its sibling by another deputy, B: child of A, C: child of B - so parents may arrive after children), InsertConfirms packets (generated signer subsets for the head, A, A2, B), "
+            "MineBlock (the node is usually the deputy whose wall-clock slot it is), and the read set of the RPC layer (current, stable, by height/hash, candidate list of the stable block, canonical account, deputies, unconfirmed tree). "
+            "serializable: the end state (current, stable, per block the set of stored confirm signers) and the verdicts of the inserts and of the miner must equal those of the same requests executed one after the other "
+            "in SOME order on a fresh copy (the oracle is the real engine run sequentially in every permutation, <= 24); every stored or emitted confirm is a valid signature of a deputy over the block it is stored with / names, "
+            "no block stores two confirms of one deputy, the node never signs two blocks of one height, no read query panics. A case whose wall-clock mining slot moved while it ran is discarded. "
+            "non-trivial = the sequential orders have at least two different outcomes; distinct by request list. "
+            "store: 1..3 client goroutines on a real BeansDB (ChainDatabase's), each with 1..3 keys of its own and 2..25 operations: single Put or a batch of 2..12 items (the same keys repeatedly), usually followed at once by a Get; "
+            "the concurrent party is the product's asynchronous writer retiring pending writes from the FileQueue index. Every Get must return the client's latest write (read-your-writes = the only sequential order a single client has); also run under -race. non-trivial = at least 6 writes. "
+            "race: the same mixes in a binary built with -race; any data race report fails the unit. non-trivial = at least two mutating requests and three requests in all.",
+    "level_text": "Generated concurrent request mixes against the real engine with a sequential-permutation oracle (serializability) and signature invariants, plus the Go race detector on the same mixes. "
+                  "Schedules are sampled by the Go scheduler, not enumerated: the check can miss interleavings it never happens to produce.",
+    "level_note": "The harness does not own the schedule; each mix runs once per case under whatever interleaving the runtime produces (thousands of mixes in the thorough tier). "
+                  "The miner's slot depends on the wall clock, so the node's identity is chosen from the clock at generation time and a failing case is not replayable from its seed: the printed request list and outcome are the reproduction.",
+    "technique": "rapid-generated concurrent request mixes; differential oracle = all sequential permutations on the real engine; Go race detector",
+    "assumptions": ["the node's key is used by the node only (no prepared block is signed with it)", "blocks older than 3 minutes are confirmed but the confirm is not broadcast (product rule), so emitted confirms are mostly observed as stored signatures"],
+    "units": [
+        {"name": "serializable", "test": "TestC19Serializable", "quick": {"checks": 15, "shards": 8, "timeout": 900}, "thorough": {"checks": 400, "shards": 16, "timeout": 3400}},
+        {"name": "store", "test": "TestC19Store", "quick": {"checks": 1500, "shards": 2, "timeout": 900}, "thorough": {"checks": 30000, "shards": 4, "timeout": 3400}},
+        {"name": "store-race", "test": "TestC19Store", "race": True, "quick": {"checks": 300, "shards": 2, "timeout": 900}, "thorough": {"checks": 6000, "shards": 4, "timeout": 3400}},
+        {"name": "race", "test": "TestC19Race", "race": True, "quick": {"checks": 80, "shards": 4, "timeout": 900}, "thorough": {"checks": 800, "shards": 8, "timeout": 3400}},
+    ],
+}
+
 CHECKS["C07"] = {
     "pkg": "./checks/c07",
     "level": "exploration",
